@@ -11,7 +11,10 @@ RULE = ("layer 1 (helpers): divideFundsEvenly exhaustively on amount 0..60 (thor
         "restart inside the window between two role stages: n = 1 cancelled k blocks after the chain first shows the Notary role (k = 0..2; the anchor is "
         "observed on the chain) and right after the NeoFSAlphabet designation; thorough: n = 1 restarted at EVERY block 1..75 of its run, k = 0..4 / 0..2 "
         "after the Notary / Alphabet designation, ALL members of n = 2..5 restarted 0..1 blocks after the Notary designation (n = 4 also 2 blocks after, "
-        "after the Alphabet designation, at a seeded block, and all but the leader); thorough also 2 upgrade schedules (previous-version executables on chain, the procedure with the supplied ones entered "
+        "after the Alphabet designation, at a seeded block, and all but the leader); leader down across the validity window of the shared data (interrupted when the data shows on the chain, the "
+        "required member signs, the chain runs fast to ValidUntilBlock+off of that data - read from the record -, the leader returns with an empty "
+        "state): quick n = 2 off = +1; thorough n = 2 and n = 3 with the third member absent, off in {-1, 0, +1, +30}, and three more live sets; "
+        "thorough also 2 upgrade schedules (previous-version executables on chain, the procedure with the supplied ones entered "
         "shortly before a multiple of 100 with seeded delays: every contract updated exactly once, next run inert); bootstrap-only schedules (exact majorities with the leader, leader + last members, sets that must stall) compared with the "
         "bootstrap model. distinct_nontrivial = distinct (operation, observation) pairs that did not end in a panic/error")
 PROPS = {
@@ -39,7 +42,8 @@ CLAIMS = {
              "run at any round and restarting any set of members; generic in the index maps it completes for a live set iff enough collectible signers "
              "are live (the pre-fix maps provably never complete for n = 2); under every schedule the designation transaction the leader composes "
              "carries exactly M = n-(n-1)/2 valid signatures of distinct members in key order; once the role is visible nobody sends anything. "
-             "Role stages (stage-level model over the regenerated table of WHICH role each pre-check, stage loop and designation names): every pre-check "
+             "An own signature of outdated shared data is REPLACED (regenerated fact): the leader-down-across-expiry history completes, whereas appending keeps "
+             "the first signature for ever and stalls. Role stages (stage-level model over the regenerated table of WHICH role each pre-check, stage loop and designation names): every pre-check "
              "queries its own stage's role, so a run (re)started on a chain in any role state gets through both role stages and initVoteForAlphabet. "
              "VALIDATION BY EXECUTION (sampling, not proof) for the orchestration: the real deploy.Deploy is run by all members of committees of 1..7 on an "
              "in-process chain under seeded schedules (start order/speed, absent minority during bootstrap, cancel + restart); the monitor checks that all runs "
